@@ -88,6 +88,7 @@ MInit ==
      nretry  |-> 0,          \* `retry` events so far
      terminal|-> "-",        \* stop tag of the terminal event ("ok" for success), "-" none yet
      termk   |-> "-", termcause |-> "-", termt |-> 0,
+     emits   |-> <<>>,       \* the events the metric/log sinks received in this run
      \* ---- episode level
      fk      |-> "-", fcause |-> "-", fra |-> None, ft |-> 0,
      hard    |-> {},         \* hard stop conditions that hold for the current failure
@@ -243,7 +244,10 @@ OnConsume(c, m, ev) ==
 (***************************************************************************)
 (* emitted events (metric + log sinks received the identical record)       *)
 (***************************************************************************)
-OnEmit(c, m, ev) ==
+EmitRec(ev) == [name |-> ev.name, n |-> ev.n, sleep |-> ev.sleep, k |-> ev.k, stop |-> ev.stop,
+                cause |-> ev.cause]
+
+OnEmit0(c, m, ev) ==
     IF ev.name = "retry" THEN
         LET m1 == Checks(m, <<
               <<m.terminal = "-",                    "C14:event-after-terminal">>,
@@ -283,6 +287,12 @@ OnEmit(c, m, ev) ==
               <<(ev.stop # "SCHEDULED") => ev.sleep = 0,       "C14:terminal-sleep-field">>,
               <<Justified(c, m, ev.stop),            "C03:stop-reason-does-not-hold">> >>)
         IN  [m1 EXCEPT !.terminal = ev.stop, !.termk = ev.k, !.termcause = ev.cause, !.termt = ev.t]
+
+OnEmit(c, m, ev) == LET m1 == OnEmit0(c, m, ev) IN [m1 EXCEPT !.emits = Append(m.emits, EmitRec(ev))]
+
+\* execute(capture_timeline=True): the captured timeline is the metric/log stream
+OnTimeline(c, m, ev) ==
+    V(m, ev.events = m.emits, "C14:timeline-differs-from-metric-and-log-stream")
 
 (***************************************************************************)
 (* sleep handler / before_sleep / sleeper                                  *)
@@ -469,5 +479,6 @@ MonStep(c, m, ev) ==
       [] ev.e = "bsleep"    -> OnBSleep(c, m, ev)
       [] ev.e = "sleep"     -> OnSleep(c, m, ev)
       [] ev.e = "deliver"   -> OnDeliver(c, m, ev)
+      [] ev.e = "timeline"  -> OnTimeline(c, m, ev)
       [] OTHER              -> OnOther(c, m, ev)
 =============================================================================
